@@ -10,7 +10,7 @@ from ..loader import AnalysisError, dotted_name
 from ..model import _lookup_def
 from ..terms import EV, EVITEM, EVKEY, EVSTORE, show, subterms
 from .common import Emission, emissions, mk_finding, mux_emissions, summary
-from .linear import linform, normalise_cmp
+from .linear import linform, normalise_cmp, FLIP as FLIP_
 from .lv import _is_notset
 from .scan import scan_call_sites, _callable_def
 
@@ -252,6 +252,39 @@ def rule_fw2(ctx: Ctx) -> RuleResult:
                 ok = last_ok and len(it) == 1 and not wr
             r.ob(ok, fail(spec, kind, cfg, p, "%s: padding must be emitted only before the first item of a key, then the item exactly once, and the key "
                                               "marked as started; this path (first=%s): %s, writes %s" % (what, ns, summary(p), [w.brief() for w in wr]), "pad"))
+    # ---- pad_start / pad_end: the sizes refused at construction ----------------------------
+    # n = 0 is a size (the identity): the factories refuse negative sizes only
+    for fname in ("pad_start", "pad_end"):
+        pm, pfn = ctx.function("rxsci/data/pad.py", fname)
+        SZ = ("arg", pm.scopes[pfn].params[0])
+        r.instances += 1
+        for p in ctx.fn_paths(pm, pfn, bind_own_ext=True):
+            if p.outcome != "raise":
+                continue
+            r.paths += 1
+            decs = [e for e in p.trace if e.k == "decision"]
+            on_size = [e for e in decs if any(x == SZ for x in subterms(e.test))]
+
+            def plain(x):
+                # int(size) is size for the integer sizes the operator is specified on
+                if isinstance(x, tuple) and x and x[0] == "call" and x[1] == ("builtin", "int") and len(x[2]) == 1 and x[2][0] == SZ:
+                    return SZ
+                return tuple(plain(y) for y in x) if isinstance(x, tuple) else x
+            forms = [normalise_cmp(plain(e.test), e.outcome) for e in on_size]
+            if not on_size or any(f is None or dict(f[1]).keys() != {SZ} for f in forms):
+                raise AnalysisError("%s: %s refuses its arguments under a test the size rule cannot read (%s)" % (
+                    pm.where(pfn), fname, "; ".join(e.brief() for e in decs)[:120]))
+            neg_only = False
+            for op, co, c in forms:
+                k = dict(co)[SZ]
+                op2, c2 = (op, c / k) if k > 0 else (FLIP_[op], c / k)
+                # size + c2  op2  0
+                if (op2 == "Lt" and c2 >= 0) or (op2 == "LtE" and c2 >= 1):
+                    neg_only = True
+            r.ob(neg_only, lambda p=p, fname=fname, on_size=on_size: Finding(
+                "FW-2", "rxsci/data/pad.py::%s{refused-size}" % fname, pm.where(pfn),
+                "%s refuses a size under '%s': only negative sizes are invalid -- a size of 0 is the identity on every key (and a computed size such as "
+                "window - 1 is 0 for window 1)" % (fname, "; ".join(e.brief() for e in on_size)), trace_of(p)))
     # ---- lag ---------------------------------------------------------------
     site, spec = _spec(ctx, "rxsci/data/lag.py", "_lag1.on_subscribe")
     r.instances += 1
@@ -267,15 +300,21 @@ def rule_fw2(ctx: Ctx) -> RuleResult:
     # which is not what lag(0) or lag(n > 1) mean)
     lm, lfn = ctx.function("rxsci/data/lag.py", "lag")
     SIZE = ("arg", lm.scopes[lfn].params[0])
-    def builds_single_slot(f):
-        """f is the function (returned by lag) that builds the single-slot site"""
+    def builds_single_slot(f, depth=0):
+        """f is the function (returned by lag) that builds the single-slot site -- itself, or by handing its source to the function that does
+        (def _lag1(source): return _lag1_named(source, None))"""
+        body = [s for s in getattr(f, "body", []) if not (isinstance(s, ast.Expr) and isinstance(s.value, ast.Constant))] if isinstance(f, ast.FunctionDef) else []
+        if depth < 3 and len(body) == 1 and isinstance(body[0], ast.Return) and isinstance(body[0].value, ast.Call) and isinstance(body[0].value.func, ast.Name):
+            inner = _lookup_def(lm, f, body[0].value.func.id)
+            if inner is not None and inner is not f and builds_single_slot(inner, depth + 1):
+                return True
         g = site.subscribe_fn
         while g is not None:
             if g is f:
                 return True
             g = site.module.enclosing_function(g)
         return bool(site.instance_of) and getattr(f, "name", None) == site.short.split(".")[0]
-    for p in ctx.fn_paths(lm, lfn, inline=False):
+    for p in ctx.fn_paths(lm, lfn, inline=False, bind_own_ext=True):
         if p.outcome != "return" or p.value is None:
             continue
         decs = [e for e in p.trace if e.k == "decision" and any(x == SIZE for x in subterms(e.test))]
